@@ -49,7 +49,7 @@ let fprint_handler prop = reg prop "Fprint" (fun ver args obs ->
     let spec =
       (match int_of_string_opt srccalls with
        | Some c when infinite && r.pr_err ->
-         let pos = max (small_int_of_z r.pr_pos) 0 in
+         let pos = max (clamp_int_of_z r.pr_pos) 0 in
          if c > pos + 2 + 1000 then
            Some (Printf.sprintf "digits consulted after the fault: %d source calls, highest position being printed %d" c pos)
          else None
